@@ -27,22 +27,47 @@ PROP = {
                    "htlcSuccessResolver (preimage applied as the contest resolver does), records the input.Input objects their "
                    "Launch() offers to the sweeper (second stage: a fresh resolver in the outputIncubating state is notified of the "
                    "verified re-signed second-level tx), and runs each through CraftInputScript + the interpreter against the "
-                   "real outputs, so the resolvers' own witness-type / CLTV / CSV choices are judged."),
+                   "real outputs, so the resolvers' own witness-type / CLTV / CSV choices are judged. The same unit then has "
+                   "each of the three confirmations DISPATCHED BY A REAL, STARTED chainWatcher (c05cw_test.go + "
+                   "cw_common_test.go): whenever the schedule has (re)loaded both parties from disk (creation, restart, "
+                   "disconnect) 6 OpenChannel instances per party are decoded from that party's LIVE database (FetchAllChannels, as "
+                   "ChainArbitrator.Start does); at a check point a chain watcher is created and started on one of these by now "
+                   "STALE instances (mock notifier, the party's signer, GetStateNumHint, single-confirmation mode, subscription "
+                   "to all close event streams), the party's own ForceClose()d commitment / the peer's current / the peer's "
+                   "pending commitment is delivered as the spend of the funding outpoint (completion awaited with blockbeats "
+                   "through the watcher's BeatConsumer, 30 s watchdog) and the LocalUnilateralCloseInfo / "
+                   "RemoteUnilateralCloseInfo the watcher dispatches (closeObserver -> handleCommitSpend -> newChainSet -> "
+                   "dispatchLocalForceClose / dispatchRemoteForceClose on the watcher's own instance) is fed to the SAME resolver "
+                   "+ interpreter oracles as the directly built summary (kinds cw-local / cw-remote-current / cw-remote-pending). "
+                   "Additional oracles: close_dispatched (a confirmation whose direct summary is fine must come out of the "
+                   "watcher as a close of that kind - not a logged error, another kind of close, a breach, a panic of the "
+                   "observer goroutine, the data-loss wait or nothing) and cw_resolutions_complete (every HTLC that has an "
+                   "output on the confirmed commitment as persisted has a resolution for exactly that output in the dispatched "
+                   "summary). The watcher path never writes to the live database, the schedule continues undisturbed."),
     "level_note": ("unit 'closes' selects input/witness types with a MIRROR of contractcourt's resolvers (decideWitnessType, "
                    "htlcTimeout/SuccessResolver, makeSweepInput, anchorResolver); unit 'resolvers' runs the real ones but not the "
                    "utxo-nursery path that legacy (pre-anchor) second-level outputs take (counted as "
                    "legacy_second_level_to_nursery; their descriptors are judged by unit 'closes'); witness-type mix-ups whose "
                    "generators are byte-identical (taproot local/remote commit spend) are invisible to a script oracle; no aux "
-                   "leaves/custom channels; heights 0 (fixture-made placeholder signature) are skipped; held on the executions "
-                   "counted in evidence."),
+                   "leaves/custom channels; heights 0 (fixture-made placeholder signature) are skipped; the chain-watcher path "
+                   "runs in unit 'resolvers' only (unit 'closes' and its value_claimable oracle still use directly built "
+                   "summaries; for watcher-dispatched summaries completeness is judged per HTLC output instead of by value), in "
+                   "single-confirmation mode, on at most 2 check points per party between two loads (6 instances; "
+                   "cw_no_instance_left counts the rest), without a revoked-commitment control inside the schedule (a breach "
+                   "dispatch would mark the live channel borked; the discriminating power of the event streams is counted as "
+                   "cw_negctl_*); a watcher that neither dispatches, logs an error, panics nor returns within 30 s is "
+                   "inconclusive; held on the executions counted in evidence."),
     "design_ref": "DESIGN.md §2 E1/E3, §3 C05",
     "rule": ("case = E1 schedule with PRNG restarts/disconnects; up to 7 check points per schedule (boosted inside "
              "pending-remote windows, after reloads, plus both sides at the final quiescent state), each closing one fork "
              "local / remote-current / remote-pending; non-trivial close = >=1 non-dust HTLC output spent; distinct = "
-             "(channel type, closer is opener, close kind, #offered bucket, #received bucket, after a reload)"),
+             "(channel type, closer is opener, close kind incl. the watcher-dispatched kinds cw-*, #offered bucket, "
+             "#received bucket, after a reload)"),
     "assumptions": ["MockSigner holds the channel keys (as the wallet does)",
                     "the peer can only broadcast commitments it held fully signed (recorded by the engine at every height)",
-                    "consensus/standardness rules = btcd txscript StandardVerifyFlags on the spending input"],
+                    "consensus/standardness rules = btcd txscript StandardVerifyFlags on the spending input",
+                    "the chain watcher's channel state instance is the one decoded from the database when the party was last loaded "
+                    "(creation / restart / disconnect of the schedule), not the instance the LightningChannel advances"],
     "eval_counter": "closes_checked",
     "units": [{
         "name": "closes", "pkg": "lnwallet", "test": "TestVerifC05",
@@ -75,7 +100,14 @@ PROP = {
                              "oracle_resolver_htlc_success_valid": 750, "oracle_resolver_htlc_timeout_valid": 900,
                              "oracle_resolver_second_level_output_valid": 600,
                              "negctl_commit_csv_minus_1": 1000, "negctl_second_level_csv_minus_1": 600,
-                             "negctl_remote_timeout_locktime_minus_1": 650, "negctl_timeout_tx_locktime_minus_1": 220},
-                   "thorough": {"closes_checked": 30000, "nontrivial": 20000, "nontrivial_remote-pending": 5000}},
+                             "negctl_remote_timeout_locktime_minus_1": 650, "negctl_timeout_tx_locktime_minus_1": 220,
+                             "oracle_cw_close_dispatched": 1200, "oracle_cw_resolutions_complete": 1200,
+                             "cw_stale_local": 350, "cw_stale_remote": 650,
+                             "nontrivial_cw-local": 340, "nontrivial_cw-remote-current": 260,
+                             "nontrivial_cw-remote-pending": 230,
+                             "cw_negctl_local_only_local_event": 490, "cw_negctl_remote_only_remote_event": 730},
+                   "thorough": {"closes_checked": 30000, "nontrivial": 20000, "nontrivial_remote-pending": 5000,
+                                "oracle_cw_close_dispatched": 30000, "cw_stale_local": 8000, "cw_stale_remote": 16000,
+                                "nontrivial_cw-local": 8000}},
     }],
 }
